@@ -298,4 +298,26 @@ example :
     let l2 := (confirm (confirm (genesis 0 []) 1 0 []).1 2 0 []).1
     (lookup l2.B 1).isSome = true ∧ (lookup l2.B 2).isSome = true ∧ findUndoTodo l2 1 2 = ([1], [2]) := by decide
 
+/-- **`truncate` to a block of the main chain preserves the invariant** (all blocks higher than the target, on every
+branch, are removed; cut branches get their kept end as branch tip; the confirmed table is left alone, which is why
+`LedgerInv` allows entries naming blocks that are no longer stored — see `truncate_cstored_refuted`) -/
+theorem truncate_inv (l : L) (target : Nat) (I : LedgerInv l) (hon : target ∈ pathOf l l.tip) :
+    LedgerInv (truncate l target).1 :=
+  truncate_ledgerInv I target ((I.onPath_iff target).2 hon)
+
+-- non-vacuity: after the trunk switch of the example above (main chain 3 → 2 → 0, side block 1), cut back to block 2
+-- and to the root
+example :
+    let l0 := genesis 0 [0]
+    let l1 := (confirm l0 1 0 [(1, true)]).1
+    let l2 := (confirm l1 2 0 [(2, true), (5, false)]).1
+    let l3 := (confirm l2 3 2 [(3, true), (1, false)]).1
+    LedgerInv (truncate l3 2).1 ∧ (truncate l3 2).2 = true ∧ LedgerInv (truncate l3 0).1 ∧
+      (truncate l3 0).1.B.map (·.1) = [0] := by
+  have I0 := genesis_inv 0 [0]
+  have I1 := confirm_inv _ 1 0 [(1, true)] I0 (by decide) (by decide)
+  have I2 := confirm_inv _ 2 0 [(2, true), (5, false)] I1 (by decide) (by decide)
+  have I3 := confirm_inv _ 3 2 [(3, true), (1, false)] I2 (by decide) (by decide)
+  exact ⟨truncate_inv _ 2 I3 (by decide), by decide, truncate_inv _ 0 I3 (by decide), by decide⟩
+
 end XV.C04
